@@ -16,7 +16,7 @@ func (c *c11ctx) ruleR3() { c11GuardRules(c) }
 
 func (c *c11ctx) ruleR4() {
 	p, r := c.p, c.r
-	q := c.rv.Queue
+	q := c.rv.Handoff
 	ctl := c.rv.Ctl.Obj().Name()
 	// (a) the hand-off in the queueing function must be an arm of a select with an alternative
 	Instrs(q, func(in ssa.Instruction) {
@@ -37,6 +37,7 @@ func (c *c11ctx) ruleR4() {
 	})
 	// (b) the active flag: the bool field of the controller tested by the queueing function
 	flag := ""
+	q = c.rv.Queue
 	Instrs(q, func(in ssa.Instruction) {
 		if iff, ok := in.(*ssa.If); ok && flag == "" {
 			v := iff.Cond
